@@ -152,6 +152,21 @@ def pullback(chain, L):
     return L
 
 
+_ZERO_TEXT = {
+    # texts int() / float() / Decimal() read as zero (white space around them is stripped by those constructors)
+    "decode_decimal": r"[ \t\n\r\f\v]*[+-]?((0(_?0)*)(\.(0(_?0)*)?)?|\.(0(_?0)*))([eE][+-]?[0-9](_?[0-9])*)?[ \t\n\r\f\v]*",
+    # radix#digits#: zero when every digit is 0
+    "decode_non_decimal": r"[+-]?[0-9]+#[+-]?0+#",
+}
+_ZERO_CACHE = {}
+
+
+def _zero_lang(mname):
+    if mname not in _ZERO_CACHE:
+        _ZERO_CACHE[mname] = rx(_ZERO_TEXT[mname])
+    return _ZERO_CACHE[mname]
+
+
 class _SelfProxy:
     """`self` in table expressions: exposes data attributes only."""
 
@@ -663,7 +678,11 @@ class Eval:
             if res is not None:
                 if not (reach & res["V"]).empty():
                     # the callee returns "some value" there (an expression the evaluator does not classify): its truth
-                    # is unknown -- never guess False
+                    # is unknown -- never guess False.  Exception: the two numeric decoders return a number, which is
+                    # false exactly when the text denotes zero (a language: sign, zeros, zero fraction, any exponent)
+                    mname = f.attr if isinstance(f, ast.Attribute) else getattr(f, "id", "")
+                    if mname in _ZERO_TEXT:
+                        return reach & (res["T"] | (res["V"] - _zero_lang(mname)))
                     raise Unsupported("truth value of " + ast.unparse(e)[:70] + " is not classified")
                 return reach & res["T"]
             raise Unsupported("cond call " + ast.unparse(e)[:70])
@@ -1251,6 +1270,14 @@ class Eval:
         if isinstance(s, ast.For):
             if self.is_str(s.iter):                               # for c in value: <per-char test>
                 return self.charloop(s, reach)
+            # for c in value[1:-1] / value.strip("x") / a local bound to one: the same per-character test on the derived
+            # string, pulled back through the transforms
+            try:
+                dv = self.env.get(s.iter.id) if isinstance(s.iter, ast.Name) and isinstance(self.env.get(s.iter.id), Derived) else self.derive(s.iter)
+            except Unsupported:
+                dv = None
+            if isinstance(dv, Derived):
+                return self.charloop(s, reach, chain=dv.chain)
             if isinstance(s.iter, (ast.Tuple, ast.List)) and s.iter.elts and all(
                     isinstance(x, ast.Attribute) and isinstance(x.value, ast.Name) and x.value.id == "self" for x in s.iter.elts):
                 items = [Meth(x.attr) for x in s.iter.elts]
@@ -1328,7 +1355,7 @@ class Eval:
             for el, v in zip(target.elts, value):
                 self.bind(el, v)
 
-    def charloop(self, s, reach):
+    def charloop(self, s, reach, chain=()):
         # shape:  for c in value: if <char-pred>: return False   [else: return True]
         var = s.target.id
         body = s.body
@@ -1336,7 +1363,7 @@ class Eval:
             bad = self.charset(body[0].test, var)
             ret = body[0].body[0].value
             k = "T" if (isinstance(ret, ast.Constant) and ret.value) else "F"
-            hit = reach & contains_any_char(bad)
+            hit = reach & (pullback(chain, contains_any_char(bad)) if chain else contains_any_char(bad))
             rest = reach - hit
             out = {k: hit}
             if s.orelse:
